@@ -936,6 +936,286 @@ fn equality_and_order(run: &mut Run, rng: &mut Rng) {
     }
 }
 
+
+// ------------------------------------------------------------------------------------------
+// (2b) floating point ordering: Float16 / Float32 / Float64 incl. NaN payloads, signed zeros,
+//      infinities, subnormals, NULL — model-free oracle (floats are outside the Lean model)
+// ------------------------------------------------------------------------------------------
+
+fn float_specials(width: u32) -> Vec<ScalarValue> {
+    type F16 = <Float16Type as ArrowPrimitiveType>::Native;
+    let mut out = vec![];
+    match width {
+        16 => {
+            out.push(ScalarValue::Float16(None));
+            for bits in [0x0000u16, 0x8000, 0x0001, 0x8001, 0x03ff, 0x0400, 0x3c00, 0xbc00, 0x7bff, 0xfbff, 0x7c00, 0xfc00, 0x7e00, 0xfe00, 0x7e01, 0x7fff, 0xfc01, 0x7c01, 0x4100] {
+                out.push(ScalarValue::Float16(Some(F16::from_bits(bits))));
+            }
+        }
+        32 => {
+            out.push(ScalarValue::Float32(None));
+            for bits in [0x0000_0000u32, 0x8000_0000, 0x0000_0001, 0x8000_0001, 0x007f_ffff, 0x0080_0000, 0x3f80_0000, 0xbf80_0000, 0x7f7f_ffff, 0xff7f_ffff, 0x7f80_0000, 0xff80_0000, 0x7fc0_0000, 0xffc0_0000, 0x7fc0_0001, 0x7fff_ffff, 0xff80_0001, 0x7f80_0001, 0x4020_0000] {
+                out.push(ScalarValue::Float32(Some(f32::from_bits(bits))));
+            }
+        }
+        _ => {
+            out.push(ScalarValue::Float64(None));
+            for bits in [
+                0x0000_0000_0000_0000u64, 0x8000_0000_0000_0000, 0x0000_0000_0000_0001, 0x8000_0000_0000_0001, 0x000f_ffff_ffff_ffff, 0x0010_0000_0000_0000, 0x3ff0_0000_0000_0000, 0xbff0_0000_0000_0000,
+                0x7fef_ffff_ffff_ffff, 0xffef_ffff_ffff_ffff, 0x7ff0_0000_0000_0000, 0xfff0_0000_0000_0000, 0x7ff8_0000_0000_0000, 0xfff8_0000_0000_0000, 0x7ff8_0000_0000_0001, 0x7fff_ffff_ffff_ffff,
+                0xfff0_0000_0000_0001, 0x7ff0_0000_0000_0001, 0x4004_0000_0000_0000,
+            ] {
+                out.push(ScalarValue::Float64(Some(f64::from_bits(bits))));
+            }
+        }
+    }
+    out
+}
+
+/// bit pattern text of a float scalar (floats are never printed as decimals)
+fn float_bits(s: &ScalarValue) -> String {
+    match s {
+        ScalarValue::Float16(Some(v)) => format!("f16:{:04x}", v.to_bits()),
+        ScalarValue::Float32(Some(v)) => format!("f32:{:08x}", v.to_bits()),
+        ScalarValue::Float64(Some(v)) => format!("f64:{:016x}", v.to_bits()),
+        ScalarValue::Float16(None) => "f16:NULL".into(),
+        ScalarValue::Float32(None) => "f32:NULL".into(),
+        ScalarValue::Float64(None) => "f64:NULL".into(),
+        other => dbg(other),
+    }
+}
+
+fn float_order(run: &mut Run, rng: &mut Rng) {
+    let opts = SortOptions { descending: false, nulls_first: true };
+    for width in [16u32, 32, 64] {
+        let all = float_specials(width);
+        // every ordered pair of the special values
+        for a in &all {
+            for b in &all {
+                let sig = format!("floatord a={} b={}", float_bits(a), float_bits(b));
+                let cmp = a.partial_cmp(b);
+                let eq = a == b;
+                run.oracle(cmp.is_some(), &format!("{sig} total"), "partial_cmp returned None for two values of one floating point type");
+                run.oracle((cmp == Some(Ordering::Equal)) == eq, &format!("{sig} cmp-eq"), &format!("partial_cmp={cmp:?} but ==  is {eq}"));
+                run.oracle(b.partial_cmp(a) == cmp.map(Ordering::reverse), &format!("{sig} antisym"), &format!("cmp(a,b)={cmp:?} cmp(b,a)={:?}", b.partial_cmp(a)));
+                run.oracle(!eq || hash_of(a) == hash_of(b), &format!("{sig} eq-hash"), "equal floats hash differently");
+                if a.is_null() && !b.is_null() {
+                    run.oracle(cmp == Some(Ordering::Less), &format!("{sig} null-first"), &format!("NULL vs value gave {cmp:?}"));
+                }
+                // the engine's row comparison (ascending, NULLs first)
+                let (a2, b2) = (a.clone(), b.clone());
+                let rows = guarded(move || datafusion_common::utils::compare_rows(&[a2], &[b2], &[opts]).map_err(|e| e.to_string()));
+                run.oracle(rows.as_ref().ok().copied() == cmp && cmp.is_some(), &format!("{sig} compare_rows"), &format!("compare_rows = {rows:?}, partial_cmp = {cmp:?}"));
+                run.count(&format!("floatord_pairs_f{width}"));
+            }
+        }
+        // transitivity on random triples + agreement with the sort kernel on random pools
+        let n = run.budget(400, 6000);
+        for c in 0..n {
+            let pick = |rng: &mut Rng| all[rng.below(all.len() as u64) as usize].clone();
+            let (a, b, cc) = (pick(rng), pick(rng), pick(rng));
+            let (ab, bc, ac) = (a.partial_cmp(&b), b.partial_cmp(&cc), a.partial_cmp(&cc));
+            if matches!(ab, Some(Ordering::Less | Ordering::Equal)) && matches!(bc, Some(Ordering::Less | Ordering::Equal)) {
+                let strict = ab == Some(Ordering::Less) || bc == Some(Ordering::Less);
+                let ok = if strict { ac == Some(Ordering::Less) } else { ac == Some(Ordering::Equal) };
+                run.oracle(ok, &format!("floatord a={} b={} c={} trans", float_bits(&a), float_bits(&b), float_bits(&cc)), &format!("a<=b ({ab:?}), b<=c ({bc:?}) but cmp(a,c)={ac:?}"));
+            }
+            let k = 2 + rng.below(6) as usize;
+            let pool: Vec<ScalarValue> = (0..k).map(|_| pick(rng)).collect();
+            let p2 = pool.clone();
+            let sorted = guarded(move || {
+                let arr = ScalarValue::iter_to_array(p2).map_err(|e| e.to_string())?;
+                let idx = sort_to_indices(&arr, Some(opts), None).map_err(|e| e.to_string())?;
+                idx.values().iter().map(|i| ScalarValue::try_from_array(&arr, *i as usize).map_err(|e| e.to_string())).collect::<Result<Vec<_>, _>>()
+            });
+            let bits: Vec<String> = pool.iter().map(float_bits).collect();
+            match &sorted {
+                Err(e) => run.oracle(false, &format!("floatsort#{c} [{}]", bits.join(" ")), &format!("engine sort failed: {e}")),
+                Ok(out) => {
+                    // the kernel's order is a strict total order on distinct bit patterns: neighbours
+                    // must be `Less`, or `Equal` exactly when they are the same value
+                    for w in out.windows(2) {
+                        let want = if w[0] == w[1] { Ordering::Equal } else { Ordering::Less };
+                        run.oracle(
+                            w[0].partial_cmp(&w[1]) == Some(want),
+                            &format!("floatsort a={} b={} position", float_bits(&w[0]), float_bits(&w[1])),
+                            &format!("the engine's ascending NULLS FIRST sort of [{}] places a directly before b, but partial_cmp(a, b) = {:?}", bits.join(" "), w[0].partial_cmp(&w[1])),
+                        );
+                    }
+                }
+            }
+        }
+    }
+}
+
+// ------------------------------------------------------------------------------------------
+// (3b) casts of NESTED scalars to targets that differ only in child field name / nullability /
+//      metadata / child type, and of Dictionary / RunEndEncoded wrappers: value AND data type
+// ------------------------------------------------------------------------------------------
+
+fn meta_field(name: &str, dt: DataType, nullable: bool) -> Field {
+    Field::new(name, dt, nullable).with_metadata(std::collections::HashMap::from([("k".to_string(), "v".to_string())]))
+}
+
+/// (source scalar, target types)
+fn nested_cast_inputs(rng: &mut Rng) -> Vec<(ScalarValue, Vec<DataType>)> {
+    let mut out: Vec<(ScalarValue, Vec<DataType>)> = vec![];
+    let item = |dt: DataType| Arc::new(Field::new("item", dt, true));
+    let elem = |dt: DataType| Arc::new(Field::new("element", dt, true));
+    let vals = |rng: &mut Rng, n: usize, nulls: bool| -> ArrayRef {
+        Arc::new(Int32Array::from((0..n).map(|_| if nulls && rng.chance(1, 3) { None } else { Some(rng.range(-3, 100) as i32) }).collect::<Vec<_>>()))
+    };
+    for nulls in [false, true] {
+        let n = 1 + rng.below(3) as usize;
+        let list_targets = |wrap: &dyn Fn(FieldRef) -> DataType| -> Vec<DataType> {
+            vec![
+                wrap(elem(DataType::Int32)),
+                wrap(Arc::new(Field::new("item", DataType::Int32, false))),
+                wrap(Arc::new(meta_field("item", DataType::Int32, true))),
+                wrap(item(DataType::Int64)),
+                wrap(elem(DataType::Int64)),
+                wrap(item(DataType::Utf8)),
+            ]
+        };
+        // List / LargeList / FixedSizeList
+        let l = ListArray::new(item(DataType::Int32), OffsetBuffer::from_lengths([n]), vals(rng, n, nulls), None);
+        let mut t = list_targets(&|f| DataType::List(f));
+        t.push(DataType::LargeList(item(DataType::Int32)));
+        t.push(DataType::LargeList(elem(DataType::Int32)));
+        out.push((ScalarValue::List(Arc::new(l)), t.clone()));
+        out.push((ScalarValue::List(Arc::new(ListArray::new_null(item(DataType::Int32), 1))), t));
+        let ll = LargeListArray::new(item(DataType::Int32), OffsetBuffer::from_lengths([n]), vals(rng, n, nulls), None);
+        let mut t = list_targets(&|f| DataType::LargeList(f));
+        t.push(DataType::List(elem(DataType::Int32)));
+        out.push((ScalarValue::LargeList(Arc::new(ll)), t));
+        let fl = FixedSizeListArray::new(item(DataType::Int32), 2, vals(rng, 2, nulls), None);
+        out.push((ScalarValue::FixedSizeList(Arc::new(fl)), list_targets(&|f| DataType::FixedSizeList(f, 2))));
+        // Struct {a: Int32, b: Utf8}
+        let fields: Fields = vec![Field::new("a", DataType::Int32, true), Field::new("b", DataType::Utf8, true)].into();
+        let sa = StructArray::new(
+            fields.clone(),
+            vec![vals(rng, 1, nulls), Arc::new(StringArray::from(vec![if nulls && rng.chance(1, 2) { None } else { Some("x") }])) as ArrayRef],
+            None,
+        );
+        let st = |fs: Vec<Field>| DataType::Struct(fs.into());
+        let struct_targets = vec![
+            st(vec![Field::new("a", DataType::Int64, true), Field::new("b", DataType::Utf8, true)]),
+            st(vec![Field::new("a", DataType::Int32, false), Field::new("b", DataType::Utf8, true)]),
+            st(vec![meta_field("a", DataType::Int32, true), Field::new("b", DataType::Utf8, true)]),
+            st(vec![Field::new("x", DataType::Int32, true), Field::new("b", DataType::Utf8, true)]),
+            st(vec![Field::new("b", DataType::Utf8, true), Field::new("a", DataType::Int32, true)]),
+            st(vec![Field::new("a", DataType::Int32, true), Field::new("b", DataType::LargeUtf8, true), Field::new("c", DataType::Int32, true)]),
+        ];
+        out.push((ScalarValue::Struct(Arc::new(sa)), struct_targets.clone()));
+        out.push((ScalarStructBuilder::new_null(fields.iter().map(|f| f.as_ref().clone()).collect::<Vec<_>>()), struct_targets));
+        // Struct { l: List<item Int32> } -> renamed child of the nested list
+        let inner = ListArray::new(item(DataType::Int32), OffsetBuffer::from_lengths([n]), vals(rng, n, nulls), None);
+        let sl = StructArray::new(vec![Field::new("l", inner.data_type().clone(), true)].into(), vec![Arc::new(inner) as ArrayRef], None);
+        out.push((
+            ScalarValue::Struct(Arc::new(sl)),
+            vec![st(vec![Field::new("l", DataType::List(elem(DataType::Int32)), true)]), st(vec![Field::new("l", DataType::List(item(DataType::Int64)), true)])],
+        ));
+        // List<Struct{a}> -> renamed list child / widened struct field
+        let sfields: Fields = vec![Field::new("a", DataType::Int32, true)].into();
+        let schild = StructArray::new(sfields.clone(), vec![vals(rng, n, nulls)], None);
+        let ls = ListArray::new(item(DataType::Struct(sfields.clone())), OffsetBuffer::from_lengths([n]), Arc::new(schild), None);
+        out.push((
+            ScalarValue::List(Arc::new(ls)),
+            vec![
+                DataType::List(elem(DataType::Struct(sfields.clone()))),
+                DataType::List(item(st(vec![Field::new("a", DataType::Int64, true)]))),
+            ],
+        ));
+        // Map<Utf8, Int32>
+        let keys: ArrayRef = Arc::new(StringArray::from((0..n).map(|i| format!("k{i}")).collect::<Vec<_>>()));
+        let entries = StructArray::new(vec![Field::new("keys", DataType::Utf8, false), Field::new("values", DataType::Int32, true)].into(), vec![keys, vals(rng, n, nulls)], None);
+        let ef = Arc::new(Field::new("entries", entries.data_type().clone(), false));
+        let m = MapArray::new(ef.clone(), OffsetBuffer::from_lengths([n]), entries, None, false);
+        let map_t = |ename: &str, k: &str, v: &str, vt: DataType| {
+            DataType::Map(Arc::new(Field::new(ename, DataType::Struct(vec![Field::new(k, DataType::Utf8, false), Field::new(v, vt, true)].into()), false)), false)
+        };
+        out.push((
+            ScalarValue::Map(Arc::new(m)),
+            vec![map_t("key_value", "key", "value", DataType::Int32), map_t("entries", "keys", "values", DataType::Int64), map_t("entries", "key", "values", DataType::Int32)],
+        ));
+        // Dictionary / RunEndEncoded wrappers
+        let dv = gen_prim(rng, &DataType::Utf8, if nulls { 50 } else { 0 });
+        out.push((
+            ScalarValue::Dictionary(Box::new(DataType::Int32), Box::new(dv)),
+            vec![
+                DataType::Dictionary(Box::new(DataType::Int8), Box::new(DataType::Utf8)),
+                DataType::Dictionary(Box::new(DataType::Int32), Box::new(DataType::LargeUtf8)),
+                DataType::Utf8,
+                DataType::Utf8View,
+            ],
+        ));
+        let dl = ListArray::new(item(DataType::Int32), OffsetBuffer::from_lengths([n]), vals(rng, n, nulls), None);
+        out.push((
+            ScalarValue::Dictionary(Box::new(DataType::Int32), Box::new(ScalarValue::List(Arc::new(dl)))),
+            vec![DataType::Dictionary(Box::new(DataType::Int32), Box::new(DataType::List(elem(DataType::Int32)))), DataType::List(elem(DataType::Int32))],
+        ));
+        let ree = |rn: &str, rt: DataType, vn: &str, vt: DataType| DataType::RunEndEncoded(Arc::new(Field::new(rn, rt, false)), Arc::new(Field::new(vn, vt, true)));
+        let rv = gen_prim(rng, &DataType::Int32, if nulls { 50 } else { 0 });
+        out.push((
+            ScalarValue::RunEndEncoded(Arc::new(Field::new("run_ends", DataType::Int32, false)), Arc::new(Field::new("values", DataType::Int32, true)), Box::new(rv)),
+            vec![
+                ree("re", DataType::Int32, "v", DataType::Int32),
+                ree("run_ends", DataType::Int32, "values", DataType::Int64),
+                ree("run_ends", DataType::Int64, "values", DataType::Int32),
+                DataType::Int32,
+                DataType::Int64,
+            ],
+        ));
+    }
+    out
+}
+
+fn nested_casts(run: &mut Run, rng: &mut Rng) {
+    let rounds = run.budget(6, 120);
+    let fmt = FormatOptions::default();
+    for _ in 0..rounds {
+        for (s, targets) in nested_cast_inputs(rng) {
+            for t in &targets {
+                for safe in [false, true] {
+                    let opts = CastOptions { safe, format_options: fmt.clone() };
+                    let (s1, t1, o1) = (s.clone(), t.clone(), opts.clone());
+                    let r_scalar = guarded(move || s1.cast_to_with_options(&t1, &o1).map_err(|e| e.to_string()));
+                    let (s2, t2, o2) = (s.clone(), t.clone(), opts.clone());
+                    let array_type = std::cell::RefCell::new(None::<DataType>);
+                    let r_col = guarded(|| {
+                        let arr = s2.to_array().map_err(|e| e.to_string())?;
+                        match ColumnarValue::Array(arr).cast_to(&t2, Some(&o2)).map_err(|e| e.to_string())? {
+                            ColumnarValue::Array(a) if a.len() == 1 => {
+                                *array_type.borrow_mut() = Some(a.data_type().clone());
+                                ScalarValue::try_from_array(&a, 0).map_err(|e| e.to_string())
+                            }
+                            other => Err(format!("array cast returned {other:?}")),
+                        }
+                    });
+                    let array_type = array_type.into_inner();
+                    let sig = format!("nestedcast {} : {} -> {t} safe={safe}", dbg(&s), s.data_type());
+                    let agree = match (&r_scalar, &r_col) {
+                        (Ok(a), Ok(b)) => same(a, b),
+                        (Err(_), Err(_)) => true,
+                        _ => false,
+                    };
+                    run.oracle(agree, &format!("{sig} vs-columnar-array"), &format!("ScalarValue::cast_to_with_options = {} (type {}) but ColumnarValue::Array([v]).cast_to = {} (type {})", dbgr(&r_scalar), r_scalar.as_ref().map(|v| v.data_type().to_string()).unwrap_or_default(), dbgr(&r_col), r_col.as_ref().map(|v| v.data_type().to_string()).unwrap_or_default()));
+                    if let Ok(v) = &r_scalar {
+                        run.oracle(&v.data_type() == t, &format!("{sig} result-type"), &format!("the cast succeeded but the result has type {} instead of the target {t}", v.data_type()));
+                    }
+                    if let Some(at) = &array_type {
+                        run.oracle(at == t, &format!("{sig} array-result-type"), &format!("the array cast succeeded but the array has type {at} instead of the target {t}"));
+                    }
+                    run.count(match &r_scalar {
+                        Ok(_) => "nestedcast_ok",
+                        Err(_) => "nestedcast_err",
+                    });
+                }
+            }
+        }
+    }
+}
+
 // ------------------------------------------------------------------------------------------
 // (3) casts
 // ------------------------------------------------------------------------------------------
@@ -1069,6 +1349,8 @@ pub fn run(run: &mut Run, args: &Args) {
     let mut rng = Rng::new(args.seed);
     roundtrip(run, &mut rng);
     equality_and_order(run, &mut rng);
+    float_order(run, &mut rng);
     casts(run, &mut rng);
+    nested_casts(run, &mut rng);
     run.note("variants outside the Lean model (implementation-level oracle only): Float16/32/64, Interval*, LargeList, FixedSizeList, ListView, List<List>, nested Struct, Map, Union, RunEndEncoded, Dictionary<List>");
 }
